@@ -134,6 +134,12 @@ def gen_cases(rng, tier):
         sc = schedules_many_threads(rng, 10 if tier == "quick" else 40)
         for j in range(0, len(sc), 2):
             cases.append(f"det {d} 21,2000,20,50,0 " + ",".join(sc[j:j + 2]))
+    for i in range(1 if tier == "quick" else 4):             # many groups: a few hundred segment groups with a partial
+        d = os.path.join(root, f"mg{i}")                     # pack each at finalize (work per thread differs 16-fold
+        gs.write_case(d, levels_set(rng), mode="multi")      # between 1 and 16 threads: count-per-thread heuristics)
+        sc = schedules_many_threads(rng, 8 if tier == "quick" else 30)
+        for j in range(0, len(sc), 2):
+            cases.append(f"det {d} 21,{rng.choice([150, 300])},20,50,0 " + ",".join(sc[j:j + 2]))
     return cases
 
 
